@@ -649,7 +649,8 @@ impl<'a, 'ast> Visit<'ast> for R4Find<'a> {
                     return;
                 }
                 if closure_has_escape(args[1]) {
-                    self.err = Some("R4: closure contains return/?".into());
+                    // a closure with `return`/`?` cannot become a match arm: the call is left as it is (the unit then
+                    // needs a specification of Option::map_or and a //@closure contract; Verus decides)
                     return;
                 }
                 format!("(match {recv} {{ {some}({p}) => {b}, {none_pat} => {} }})", t(args[0]))
